@@ -20,7 +20,8 @@ class Ctx:
         self.rundir = C.run_dir(chk.PROP.lower() + ('-replay' if single else ''))
         self.pools = {}
         for v, t in chk.TOOLS:
-            self.pools[(v, t)] = TP.ToolPool(v, t, 1 if single else getattr(chk, 'SERVERS', None), prefix=getattr(chk, 'SERVER_PREFIX', None))
+            prefix = getattr(chk, 'SERVER_PREFIX', None) or getattr(chk, 'SERVER_PREFIX_BY_VARIANT', {}).get(v)
+            self.pools[(v, t)] = TP.ToolPool(v, t, 1 if single else getattr(chk, 'SERVERS', None), prefix=prefix)
         self.memo = {}
 
     def pool(self, tool, variant=None):
